@@ -107,13 +107,13 @@ Proof. exact t2_retry_cut_safe. Qed.
 Print Assumptions C02_t2_retry_cut_safe.
 
 (* non-vacuity: 300 bytes onto the layout with the NDEF TLV at byte 17; first attempt: the commit command (80th) is executed
-   but not answered, second attempt: its first command is lost; the third attempt is cut after one command *)
+   but not answered, second attempt: its first command is lost; the reader has forgotten its cache, the next attempt writes again *)
 Example C02_t2_retry_nonvacuous :
   exists L m1 F c, t2_after ex_cut_mem ex_cut_new [(80%nat, Unanswered); (1%nat, Lost)] = Some (L, (m1, F, c)) /\
-    t2_fresh m1 = Msg ex_cut_new /\ F <> c /\
-    length (snd (t2_attempt m1 L F c ex_cut_new None Lost)) = 1%nat.
+    t2_fresh m1 = Msg ex_cut_new /\ F = view m1 /\ c = view m1 /\
+    snd (t2_attempt m1 L F c ex_cut_new None Lost) <> [].
 Proof. eexists. eexists. eexists. eexists. split; [vm_compute; reflexivity|]. split; [vm_compute; reflexivity|].
-  split; [vm_compute; discriminate | vm_compute; reflexivity]. Qed.
+  split; [vm_compute; reflexivity|]. split; [vm_compute; reflexivity | vm_compute; discriminate]. Qed.
 
 (* Type 1: invariant and retry safety under the same guard as C02_t1_cut_safe_guarded *)
 Theorem C02_t1_reader_ok_preserved : forall hr0 m d L m1 F c kf f, wfL1 hr0 m L -> t1_reader_ok hr0 m d (m1, F, c) ->
